@@ -488,3 +488,6 @@ def run(chk):
     chk.guard(rule_corner_tables, chk, prog)
     chk.guard(rule_prune, chk, prog)
     chk.guard(rule_prune_degenerate, chk, prog)
+    from ..rules import mirrors
+    r_m = chk.rule("MIRROR", "the x / y and low / high twins of libtopology's edge points, obstacles and segments stay mirror images (tables/mirrors.json)", floor=1)
+    mirrors.check(r_m, prog, ["topology::EdgePoint::", "topology::LayoutObstacle::", "topology::LayoutEdgeSegment::"])
